@@ -1,6 +1,6 @@
 (* IndexDb4Proofs.v — C11, part 5: insert_index establishes / keeps the invariants; what the
    invariant means for index searches and for the index listing. *)
-From Agdb Require Import Bytes DbValue Graph DbModel Search Queries DbValueProofs DbFrameProofs
+From Agdb Require Import Bytes DbValue Graph DbModel Search Queries DbValueEqProofs DbFrameProofs
   KvProofs KvDbProofs KvSelectProofs IndexProofs IndexDbProofs IndexDb2Proofs IndexDb3Proofs QStepProofs.
 From Coq Require Import ZifyBool ZifyNat ZifyN.
 Open Scope Z_scope.
